@@ -335,6 +335,18 @@ def _diag_zz(ck, inst, asite, got, want):
                     return True
         return False
 
+    def _unknown_ix(a):
+        # a selection the analyser could not follow (a list it cannot enumerate, a value handed back by an unmodelled call)
+        for it_ in a.args[1]:
+            if isinstance(it_, tuple) and it_ and it_[0] == "unk":
+                return True
+            if isinstance(it_, tuple) and it_ and it_[0] in ("adv", "advcomp") and len(it_) > 1 and hasattr(it_[1], "syms") and any("?" in s_ or s_.startswith(("ret(", "elem(")) for s_ in it_[1].syms()):
+                return True
+        return False
+
+    if gi != wi and any(_unknown_ix(a) for a in gi):
+        ck.undecided("C08.R3", inst + ":pairs (i, i+c)/L", asite, "the sites are selected through an index the analyser does not follow: %s" % (sorted(repr(a.args[1]) for a in gi),))
+        return
     if gi != wi and any(_alias(a) for a in gi):
         ck.undecided("C08.R3", inst + ":pairs (i, i+c)/L", asite, "the sites are selected through %s; the expected form is %s" % (sorted(repr(a.args[1]) for a in gi), sorted(repr(a.args[1]) for a in wi)))
         return
